@@ -93,6 +93,12 @@ ClausesC10(r) ==
            \* derive_mask.edge_buffed: the mask with every cell within one pixel of an unmasked cell
            \* unmasked as well (clipped to the frame)
            << Cl("edge-buffed", ToSet(r.out) = SetLin(Buffed(u, r.h, r.w, 1), r.w)) >>
+      [] r.api = "from_pixel_coordinates" ->
+           \* (beyond the listed property) a mask built from pixel coordinates unmasks exactly those pixels, buffed by `b`
+           \* in all eight directions and clipped to the frame; with invert the complementary mask
+           LET want == Buffed(u, r.h, r.w, r.b) IN
+           << Cl("mask-from-pixel-coordinates-is-buffed-set",
+                 ToSet(r.out) = SetLin(IF r.invert THEN Cells(r.h, r.w) \ want ELSE want, r.w)) >>
       [] OTHER -> << Cl("unknown-api", FALSE) >>
 
 WantC10(r) ==
